@@ -28,6 +28,7 @@ for pid in sys.argv[1:]:
     meta["verification"] = {"build": v["build"], "existing_suite_on_changed_tree": v["existing_suite"],
                             "demo_on_unchanged_tree": v["demo_on_unchanged_tree"], "demo_on_changed_tree": v["demo_on_changed_tree"],
                             "confirmed_by": "tools/seedverify.sh in a fresh worktree of /repo HEAD"}
+    if v.get("note"): meta["verification"]["note"] = v["note"]
     meta["caught_by"] = caught
     meta["reports"] = [l[:400] for l in lines[:6]]
     meta["verdict"] = ("caught by " + ", ".join(caught)) if caught else "not caught"
